@@ -267,7 +267,8 @@ def run(tier: str, seed: int) -> int:
     cases = []
     for i in range(n):
         strategy = "client" if i % 5 != 4 else "graphqlschema"
-        kw: Dict[str, Any] = {"strategy": strategy, "tier": tier, "dirty": ["frag.many"] if i % 2 == 0 else []}
+        # (overlapping interfaces with inline fragments on them make several abstract types meet in one selection: one more place where sets are iterated)
+        kw: Dict[str, Any] = {"strategy": strategy, "tier": tier, "dirty": ["frag.many"] if i % 2 == 0 else (["frag.inline.on_interface"] if i % 4 == 1 else [])}
         if strategy == "client":
             kw["plugins"] = PLUGIN_SETS[i % len(PLUGIN_SETS)]
             kw["comments"] = ["none", "stable"][i % 2]
